@@ -15,6 +15,7 @@ import (
 	"github.com/zishang520/engine.io/v2/transports"
 	"github.com/zishang520/engine.io/v2/types"
 	"github.com/zishang520/engine.io/v2/utils"
+	"github.com/zishang520/engine.io/v2/vhook"
 )
 
 var socket_log = log.NewLog("engine:socket")
@@ -306,6 +307,7 @@ func (s *socket) MaybeUpgrade(transport transports.Transport) {
 	socket_log.Debug(`might upgrade socket transport from "%s" to "%s"`, s.Transport().Name(), transport.Name())
 
 	s.upgrading.Store(true)
+	vhook.Yield("socket.MaybeUpgrade.entered")
 
 	var check, cleanup func()
 	var onPacket, onError, onTransportClose, onClose events.Listener
@@ -348,6 +350,7 @@ func (s *socket) MaybeUpgrade(transport transports.Transport) {
 	// we force a polling cycle to ensure a fast upgrade
 	check = func() {
 		if transports.POLLING == s.Transport().Name() && s.Transport().Writable() {
+			vhook.Yield("socket.upgrade.check")
 			socket_log.Debug("writing a noop packet to polling for fast upgrade")
 			s.Transport().Send([]*packet.Packet{{Type: packet.NOOP}})
 		}
@@ -427,6 +430,7 @@ func (s *socket) clearTransport() {
 // `transport error`, `server close`, `transport close`
 func (s *socket) OnClose(reason string, description ...error) {
 	if s.ReadyState() != "closed" {
+		vhook.Yield("socket.OnClose.checked")
 		description = append(description, nil)
 
 		s.SetReadyState("closed")
@@ -549,6 +553,7 @@ func (s *socket) Close(discard bool) {
 	if s.ReadyState() != "open" {
 		return
 	}
+	vhook.Yield("socket.Close.checked")
 
 	s.SetReadyState("closing")
 
